@@ -49,6 +49,19 @@ def category(path):
     return None               # /cells or /cells/* : the decision's diffs may span categories
 
 
+def is_concatenation(line, allowed):
+    """line is >= 2 non-empty input lines written one after the other (word-break DP)"""
+    n = len(line)
+    ok = [0] + [None] * n      # ok[i] = min number of pieces covering line[:i]
+    for i in range(1, n + 1):
+        for j in range(i):
+            if ok[j] is not None and line[j:i] in allowed and line[j:i] != "":
+                c = ok[j] + 1
+                if ok[i] is None or c < ok[i]:
+                    ok[i] = c
+    return ok[n] is not None and ok[n] >= 2
+
+
 def relabel(decisions, side_for):
     out = []
     for d in decisions:
@@ -98,7 +111,7 @@ def judge(col, b, l, rm, cls, info, sides, tr):
     allowed = source_lines(b) | source_lines(l) | source_lines(rm)
     fab = sorted(x for x in source_lines(merged) if x.strip() and x not in allowed)
     if fab:
-        glued = any(fab[0][:i] in allowed and fab[0][i:] in allowed for i in range(1, len(fab[0])))
+        glued = is_concatenation(fab[0], allowed)
         col.violation("two-input-lines-glued-without-newline" if glued else "use-strategy-source-line-from-nowhere", "%s: merged source line %r is in none of the three inputs [class=%s]" % (
             cfg, fab[0][:100], cls), case, "provenance")
 
